@@ -1579,4 +1579,31 @@ theorem uninitialised_block_is_never_saved (s : Storage) (b : Blk) (hp : b.persi
     (hi : b.dyn.inited = false) : saveBlk s b = s.erase b.key := by
   simp [saveBlk, hp, getState, hi]
 
+/-! ### a stopped FSM does not save any more (round ten, finding C06-late-event-overwrites-saved-timer)
+
+`FSM.stop()` cancels the timer; an event that reaches the block afterwards (sent by the `stop()` of another block:
+the blocks without asynchronous clean-up are stopped in set order) used to make `AddonPersistence.event` save the
+state WITHOUT the timer over what `run_forever` had saved before it stopped the blocks – a restart then restored a
+timed state that never expires.  The repaired `stop()` switches the block's persistence off (translated statement
+`self.persistent = False`, tied in C04: `translated_fsmtimer_stop_is_model`, `stop_switches_persistence_off`). -/
+
+/-- after a complete clean-up every FSM block has its persistence switched off, every other block keeps its flag -/
+theorem stopped_fsm_is_not_persistent (c : Circ) (t : Time) (hp : c.phase = .stopping ∨ c.phase = .stoppingF)
+    (hs : c.started = true) (b : Blk) (hb : b ∈ (c.stopEnd t true).blocks) :
+    (∀ k, b.kind = .fsm k → b.persistent = false) ∧ b.dyn.timer = none := by
+  have hph : (c.phase != .stopping && c.phase != .stoppingF) = false := by
+    rcases hp with h | h <;> simp [h]
+  simp only [Circ.stopEnd, hph, Bool.false_eq_true, ↓reduceIte, List.mem_map] at hb
+  obtain ⟨b0, _, rfl⟩ := hb
+  refine ⟨?_, rfl⟩
+  intro k hk
+  simp only at hk
+  simp [hk, hs]
+
+/-- … and whatever an event does to such a block afterwards, neither `save_persistent_state` nor the sync save writes:
+    the entry saved when the stop began is what a restart finds -/
+theorem stopped_fsm_never_overwrites_saved_state (s : Storage) (b : Blk) (hp : b.persistent = false) (d : Dyn) :
+    saveBlk s { b with dyn := d } = s ∧ syncSave s { b with dyn := d } = s := by
+  simp [saveBlk, syncSave, hp]
+
 end Edzed.TrTie
